@@ -15,18 +15,27 @@ Proof. intros; apply Z.pow_lt_mono_r; lia. Qed.
 Lemma pow2_split n m : 0 <= n <= m -> 2 ^ m = 2 ^ (m - n) * 2 ^ n.
 Proof. intros; rewrite <- Z.pow_add_r by lia; f_equal; lia. Qed.
 
+Lemma wrap_mod w z : 0 <= w -> wrap w z = z mod 2 ^ w.
+Proof. intros; unfold wrap; apply Z.land_ones; lia. Qed.
+
 Lemma wrap_small w z : 0 <= z < 2 ^ w -> wrap w z = z.
-Proof. intros; unfold wrap; apply Z.mod_small; lia. Qed.
+Proof.
+  intros H. destruct (Z_lt_le_dec w 0) as [Hw | Hw].
+  - rewrite Z.pow_neg_r in H by lia; lia.
+  - rewrite wrap_mod by lia. apply Z.mod_small; lia.
+Qed.
 
 Lemma wrap_range w z : 0 <= w -> 0 <= wrap w z < 2 ^ w.
-Proof. intros; unfold wrap; apply Z.mod_pos_bound, pow2_pos; lia. Qed.
+Proof. intros; rewrite wrap_mod by lia; apply Z.mod_pos_bound, pow2_pos; lia. Qed.
 
 Lemma wsub_small w a b : 0 <= b <= a -> a < 2 ^ w -> wsub w a b = a - b.
 Proof. intros; unfold wsub; apply wrap_small; lia. Qed.
 
 Lemma wsub_wrap w a b : 0 <= a < b -> b <= 2 ^ w -> wsub w a b = 2 ^ w + a - b.
 Proof.
-  intros; unfold wsub, wrap.
+  intros H1 H2. assert (Hw : 0 <= w).
+  { destruct (Z_lt_le_dec w 0) as [Hw | Hw]; [rewrite Z.pow_neg_r in H2 by lia; lia | lia]. }
+  unfold wsub. rewrite wrap_mod by lia.
   symmetry; apply Z.mod_unique with (q := -1); lia.
 Qed.
 
@@ -45,7 +54,7 @@ Qed.
 (* x << n on a w-bit word, any count *)
 Lemma wshl_spec w x n : 0 <= w -> 0 <= n -> wshl w x n = (x * 2 ^ n) mod 2 ^ w.
 Proof.
-  intros Hw Hn; unfold wshl, wrap.
+  intros Hw Hn; unfold wshl. rewrite wrap_mod by lia.
   destruct (w <=? n) eqn:E.
   - apply Z.leb_le in E.
     rewrite (pow2_split w n) by lia.
@@ -82,7 +91,7 @@ Qed.
 Lemma mask_high w n : 0 < w -> 0 <= n ->
   wshl w (maxu w) n = if n <? w then 2 ^ w - 2 ^ n else 0.
 Proof.
-  intros Hw Hn; unfold wshl, maxu, wrap.
+  intros Hw Hn; unfold wshl, maxu. rewrite wrap_mod by lia.
   destruct (w <=? n) eqn:E; destruct (n <? w) eqn:F; try lia; try reflexivity.
   rewrite Z.shiftl_mul_pow2 by lia.
   pose proof (pow2_lt n w ltac:(lia)). pose proof (pow2_pos n ltac:(lia)).
